@@ -36,7 +36,14 @@ Step ==
               \* an operation that failed because a storage/Lightning error was injected into it is
               \* judged like a crashed one: all or nothing of its current phase (C07)
               faulted == e.a.fault /\ ~e.r.ok /\ ~e.r.panic
-              j == IF faulted
+              \* NUT-19: a byte-identical repetition of a successful swap / mint is answered from the cache and is
+              \* not an execution: nothing changes, no storage call
+              cached == e.r.http.used /\ e.r.http.cachehit
+              j == IF cached
+                   THEN [tags |-> IF e.r.http.status = 200 /\ e.r.http.dbcalls = 0 THEN {}
+                                  ELSE {<<"C20", "identical-replay-not-served-from-cache">>},
+                         allowed |-> {S}]
+                   ELSE IF faulted
                    THEN [tags |-> {}, allowed |-> CrashOutcomes(S, e.ev, e.a, IF "ln" \in DOMAIN e.a THEN e.a.ln ELSE << >>)]
                    ELSE IF e.a.fault THEN [j0 EXCEPT !.tags = {t \in @ : t[2] # "refused-without-cause"}] ELSE j0
               blind == e.ev = "crash" /\ ~e.r.ok   \* the mint could not be restarted: no projection
@@ -45,7 +52,8 @@ Step ==
               diffTags == IF match # {} THEN {}
                           ELSE {<<DiffProp(e, d), "post-state-differs:" \o e.ev \o ":" \o d>> : d \in Diffs(cand, e.post)}
               S3 == IF blind THEN cand ELSE Adopt(cand, e.post)
-              all == j.tags \cup diffTags \cup InvTags(S, S3)
+              httpTags == IF e.a.fault \/ cached THEN {} ELSE HttpTags(e.r.http, e.r.ok, CausesOf(S, e))
+              all == j.tags \cup diffTags \cup InvTags(S, S3) \cup httpTags
           IN /\ S' = S3
              /\ bad' = bad \cup {<<t[1], e.tr, e.i, t[2]>> : t \in all}
              /\ stats' = [stats EXCEPT !.events = @ + 1,
